@@ -52,11 +52,25 @@ class Gen:
             m = r.choice([0, 0, 2, 3]) if f in ("levels", "mixed") else 0
             rr = r.randrange(m) if m else 0
             wth = fth = ""
+            pat = ""
             if f == "faults":
-                wth = ",".join(str(k) for k in sorted(set(r.randrange(1, 12) for _ in range(r.choice([0, 1, 2])))))
-                fth = ",".join(str(k) for k in sorted(set(r.randrange(1, 8) for _ in range(r.choice([0, 1, 1])))))
+                # w2_faults: every throwing call has a kind ('' std::exception with text, 'e' empty what(), 'n' not a std::exception);
+                # a non-first sink may carry an override pattern the backend cannot build (then half of the scripts have no
+                # other write fault, so that the locality oracle applies)
+                if s == 0:
+                    self.pat_script = self.nsinks >= 2 and r.random() < 0.4
+                    self.pat_sink = r.randrange(1, self.nsinks) if self.pat_script else -1
+                    self.pat_only = r.random() < 0.6
+                if s == self.pat_sink:
+                    pat = "bad"
+                    lvl = r.choice([0, 6, 6, 8])
+                if not (self.pat_script and self.pat_only):
+                    wth = ",".join("%d%s" % (k, r.choice(["", "", "e", "n"])) for k in sorted(set(r.randrange(1, 12) for _ in range(r.choice([0, 1, 2])))))
+                fth = ",".join("%d%s" % (k, r.choice(["", "", "e", "n"])) for k in sorted(set(r.randrange(1, 8) for _ in range(r.choice([0, 1, 1])))))
             self.sinkcfg[s] = dict(lvl=lvl, m=m, r=rr)
             line = "sink %d lvl=%d" % (s, lvl)
+            if pat:
+                line += " pat=" + pat
             if m:
                 line += " filt=%d:%d" % (m, rr)
             if wth:
@@ -105,10 +119,19 @@ class Gen:
             lvl = r.choice(LEVELS) if f in ("levels", "mixed") else r.choice([4, 4, 6, 8])
             if f in ("faults", "mixed") and r.random() < 0.2:
                 return "LN %d %d %d" % (a, g, r.choice([5, 20, 60]))
+            if f == "faults" and r.random() < 0.25:
+                # w2_faults: a statement whose argument is decoded by user code on the backend; the decode may be armed to throw
+                # (top-level operations only: TOP_ONLY keeps them out of the injection tables)
+                self.n_lu = getattr(self, "n_lu", 0) + 1
+                if r.random() < 0.5:
+                    self.emit("DT %d" % (self.n_lu + r.choice([0, 0, 1])))
+                return "LU %d %d %d" % (a, g, r.choice([5, 20, 60, 150]))
             return "%s %d %d %d %d" % ("L" if r.random() < 0.8 else "LS", a, g, lvl, self.rnd_len())
         if self.unbounded and w > 0.97:
             # a capacity query right before a shrink request so that the oracle knows the capacity the request meets
             self.emit("QC %d" % a)
+            if f in ("faults", "order", "mixed") and r.random() < 0.5:
+                self.emit("NA")   # w2_faults: the user's notifier throws on the allocation notice this shrink will cause
             return "SH %d %d" % (a, r.choice([512, 1024, 256, 2048, 600]))
         if w < 0.55:
             return "K %d" % self.rnd_dt()
@@ -163,7 +186,7 @@ class Gen:
                 ops = []
                 for _ in range(r.choice([1, 1, 2, 3])):
                     o = self.front_op()
-                    if o and not o.startswith(("T ", "Q")) and "," not in o:   # ',' separates injected operations
+                    if o and not o.startswith(("T ", "Q", "LU ", "DT ", "NA")) and "," not in o:   # ',' separates injected operations
                         ops.append(o.replace(" ", "_"))
                 if ops:
                     injs.append("@%d.%d=%s" % (site, k, ",".join(ops)))
@@ -323,6 +346,43 @@ def directed_scripts(variant):
             "L 2 0 4 10", "L 1 0 4 3900", "L 1 0 4 3900", "L 1 0 4 3900", "L 1 0 4 3900", "T 1 exit"] +
             ["K 2000000", "P", "R 1", "P"] * 4 + ["T 1 exit"] +      # (blocking build: the parked call returns first)
             ["K 2000000", "P", "R 1", "R 2", "P"] * 14 + ["P", "P", "Q", "X"]))
+    # w2_faults ---------------------------------------------------------------------------------------------------------
+    # every kind of exception a sink call can throw is reported exactly once: text, EMPTY text, not a std::exception
+    out.append(("dir_fault_kinds", [
+        "cfg grace=0 soft=4 hard=8 tcap=2", "sink 0 lvl=0 wthrow=1e,2n,3 fthrow=1e,2n", "sink 1 lvl=0", "logger 0 sinks=0,1 lvl=0", "start",
+        "T 1 start", "L 1 0 4 10", "L 1 0 4 10", "L 1 0 4 10", "L 1 0 4 10", "F 1 0", "P", "P", "P", "P", "P", "P", "R 1", "F 1 0",
+        "P", "P", "R 1", "Q"]))
+    # an empty-text exception during a backtrace replay and from the second sink
+    out.append(("dir_fault_kinds_second_sink", [
+        "cfg grace=0 soft=1 hard=8 tcap=2", "sink 0 lvl=0", "sink 1 lvl=0 wthrow=1e,3n", "logger 0 sinks=0,1 lvl=0", "start",
+        "T 1 start", "L 1 0 4 10", "L 1 0 4 10", "L 1 0 4 10", "L 1 0 4 10", "P", "P", "P", "P", "P", "P", "Q"]))
+    # a sink in the MIDDLE whose override pattern cannot be built, behind a level filter: costs only the statements that reach
+    # it (level >= 6) at itself and at the sink after it; never the sink before it, never a statement it filters out
+    out.append(("dir_pattern_fault_middle", [
+        "cfg grace=0 soft=4 hard=8 tcap=2", "sink 0 lvl=0", "sink 1 lvl=6 pat=bad", "sink 2 lvl=0", "logger 0 sinks=0,1,2 lvl=0",
+        "logger 1 sinks=0,2 lvl=0", "start", "T 1 start", "L 1 0 4 10", "L 1 0 8 10", "L 1 1 8 10", "LS 1 0 4 10", "L 1 0 7 10",
+        "L 1 0 5 10", "P", "P", "P", "F 1 0", "P", "R 1", "P", "R 1", "K 1000", "L 1 0 6 10", "L 1 0 3 10", "X"]))
+    out.append(("dir_pattern_fault_last_filtered", [
+        "cfg grace=0 soft=1 hard=8 tcap=2", "sink 0 lvl=0", "sink 1 lvl=0 filt=2:0 pat=bad", "logger 0 sinks=0,1 lvl=0", "start",
+        "T 1 start", "L 1 0 4 10", "L 1 0 4 10", "L 1 0 4 10", "L 1 0 4 10", "P", "P", "P", "P", "P", "X"]))
+    # an exception that escapes the read pass (throwing decoder of a user-defined type): thread 1 holds an older statement
+    # than thread 2; the aborted poll writes nothing, loses nothing; the next one reads everything again
+    out.append(("dir_decode_abort_order", [
+        "cfg grace=1 soft=4 hard=8 tcap=2", "sink 0 lvl=0", "logger 0 sinks=0 lvl=0", "start", "T 1 start", "T 2 start",
+        "DT 1", "L 1 0 4 10", "K 10", "LU 1 0 20", "K 10", "L 2 0 4 10", "K 100000", "P", "P", "P", "P", "P", "Q", "X"]))
+    # the same with the throwing record FIRST in its queue (nothing of that thread is cached when the pass is left) and with
+    # records of the same queue read but not yet committed when the exception is raised (blocking queue: the producer's retry)
+    out.append(("dir_decode_abort_first_record", [
+        "cfg grace=1 soft=1 hard=8 tcap=2", "sink 0 lvl=0", "logger 0 sinks=0 lvl=0", "start", "T 1 start", "T 2 start",
+        "DT 1", "DT 3", "LU 1 0 20", "K 10", "L 2 0 4 10", "K 10", "L 1 0 4 150", "LU 1 0 150", "LU 1 0 20", "L 1 0 4 150", "R 1",
+        "K 100000", "P", "R 1", "P", "R 1", "P", "R 1", "P", "P", "P", "P", "P", "Q", "X"]))
+    if variant >= 2:
+        # unbounded builds: the user's notifier throws on the "Allocated a new SPSC queue" notice (thread 1 shrank its queue and
+        # logged, thread 2 logged later): the exception leaves the read pass, nothing may be written before thread 1's statement
+        out.append(("dir_alloc_notice_throws", [
+            "cfg grace=1 soft=8 hard=8 tcap=8", "sink 0 lvl=0", "logger 0 sinks=0 lvl=0", "start", "T 1 start", "T 2 start",
+            "L 1 0 4 10", "L 2 0 4 10", "K 1000000", "P", "P", "P", "QC 1", "SH 1 256", "NA", "L 1 0 4 10", "K 10", "L 2 0 4 10",
+            "K 1000000", "P", "P", "P", "P", "Q", "X"]))
     # backtrace: wrap, flush by level, explicit flush
     out.append(("dir_backtrace", [
         "cfg grace=0 soft=4 hard=8 tcap=2", "sink 0 lvl=0", "logger 0 sinks=0 lvl=0", "start", "T 1 start",
@@ -393,7 +453,7 @@ def parse_run(lines):
                     k, v = x.split("=")
                     rec["cfg"][k] = int(v)
         elif w[0] == "sink":
-            d = dict(lvl=0, m=0, r=0, wthrow=[], fthrow=[])
+            d = dict(lvl=0, m=0, r=0, wthrow=[], fthrow=[], pat="")
             for x in w[2:]:
                 k, v = x.split("=")
                 if k == "lvl":
@@ -401,7 +461,9 @@ def parse_run(lines):
                 elif k == "filt":
                     d["m"], d["r"] = map(int, v.split(":"))
                 elif k in ("wthrow", "fthrow"):
-                    d[k] = [int(t) for t in v.split(",") if t]
+                    d[k] = [int(t.rstrip("en")) for t in v.split(",") if t]   # 'e' / 'n': kind of the exception (w2_faults)
+                elif k == "pat":
+                    d["pat"] = v
             rec["sinks"][int(w[1])] = d
         elif w[0] == "logger":
             d = dict(sinks=[], lvl=4)
@@ -460,6 +522,7 @@ def oracles(lines):
     flush_wait = {}     # actor -> dict(snapshot of ids that must be out, sinks)
     has_faults = any(s["wthrow"] for s in rec["sinks"].values())
     has_flush_faults = any(s["fthrow"] for s in rec["sinks"].values())
+    has_pat = any(s.get("pat") == "bad" for s in rec["sinks"].values())
     dyn_cfg_changes = False
     dropped_reported = 0
     dropped_log_calls = 0
@@ -508,14 +571,14 @@ def oracles(lines):
                 if after != expect:
                     viol.append(("C20", "shrink request of actor %d to %d with capacity %d: capacity reported afterwards %d, expected %d" % (a, want, before, after, expect)))
             return
-        if op in ("L", "LS", "LB", "LN"):
+        if op in ("L", "LS", "LB", "LN", "LU"):
             m = re.match(r"id=(\d+)", res)
             if not m:
                 return
             i = int(m.group(1))
             a, g = int(w[1]), int(w[2])
             last_cap.pop(a, None)   # the call may have grown the queue: a capacity read before it says nothing about a later shrink
-            lvl = 9 if op == "LB" else 4 if op == "LN" else int(w[3])
+            lvl = 9 if op == "LB" else 4 if op in ("LN", "LU") else int(w[3])
             if op == "LB":
                 backtrace_used = True
             st = stmts.setdefault(i, dict(actor=a, g=g, lvl=lvl, ts=t_now, enq=None, ret=None, op=op, sinks=list(loggers_sinks.get(g, [])),
@@ -614,18 +677,18 @@ def oracles(lines):
             live_logged.add(st["actor"])
             return
         if "ret=1" in res or ("bytes=" in res and not res.endswith("bytes=0")) or (
-                st["op"] in ("LS", "LB", "LN") and "bytes=" not in res and "ev=1" in res and cfg.get("variant", 0) == 2):
+                st["op"] in ("LS", "LB", "LN", "LU") and "bytes=" not in res and "ev=1" in res and cfg.get("variant", 0) == 2):
             st["ret"] = True
             st["enq"] = t_now
             live_logged.add(st["actor"])
             complete[i] = order_idx[0]
             order_idx[0] += 1
-        elif st["op"] in ("LS", "LB", "LN") and "bytes=" not in res and "ev=1" in res:
+        elif st["op"] in ("LS", "LB", "LN", "LU") and "bytes=" not in res and "ev=1" in res:
             st["ret"] = "unknown"   # unbounded dropping build: a macro without return value, outcome not observable here
             st["enq"] = t_now       # if it was enqueued at all, it was now (C05 premise)
             unknown_outcomes[0] += 1
             live_logged.add(st["actor"])   # the reservation was attempted: the context exists
-        elif st["op"] in ("LS", "LB", "LN") and res.endswith("bytes=0") and "ev=1" in res:
+        elif st["op"] in ("LS", "LB", "LN", "LU") and res.endswith("bytes=0") and "ev=1" in res:
             st["ret"] = False   # static macro on a dropping queue: dropped
             dropped_log_calls += 1
             live_logged.add(st["actor"])
@@ -640,7 +703,7 @@ def oracles(lines):
         # later sinks their copy, C10); "what was written has been flushed since" is claimed always for the caller's own
         # statements: the Flush event flushes every sink reachable through a logger — also one that took the statement
         # before a later sink threw
-        strict = not (has_faults or dyn_cfg_changes)
+        strict = not (has_faults or has_pat or dyn_cfg_changes)
         for i in fw["need"]:
             st = stmts[i]
             if st["lvl"] == 9:
@@ -665,6 +728,17 @@ def oracles(lines):
 
     def accepts(sk, st, i):
         return st["lvl"] >= sk["lvl"] and not (sk["m"] > 0 and i % sk["m"] == sk["r"])
+
+    def pat_blocker(st, i, s):
+        """w2_faults: the sink of st's logger, at or before `s` in the logger's list, whose override pattern cannot be built and
+        which the statement reaches (its level and filter accept it): the dispatch ends there"""
+        for e in st["sinks"]:
+            sk = rec["sinks"].get(e)
+            if sk and sk.get("pat") == "bad" and accepts(sk, st, i):
+                return e
+            if e == s:
+                return None
+        return None
 
     widx = [0]
 
@@ -693,6 +767,24 @@ def oracles(lines):
         elif e.startswith("sinkdtor:"):
             erased_now.add(int(e.split(":")[1]))
 
+    # ---- C10 (w2_faults): every exception of a sink call / of the read pass is reported, once, right where it is caught -----
+    FAULT_NOTES = ("n:wfail", "n:ffail", "n:empty", "n:unhandled")
+    for (w, res, evs) in rec["ops"]:
+        fe = [e for e in flatten_events(evs) if not e.startswith("[@")]
+        for k, e in enumerate(fe):
+            if e.startswith(("wthrow:", "fthrow:")):
+                nxt = fe[k + 1] if k + 1 < len(fe) else ""
+                if nxt not in FAULT_NOTES:
+                    viol.append(("C10", "the exception thrown by sink call %s (operation '%s') is not reported through the error notifier "
+                                 "(next event: %s); every throw of a sink is reported once, whatever the exception is or says" % (e, " ".join(w), nxt or "none")))
+            elif e.startswith("dthrow:"):
+                nxt = fe[k + 1] if k + 1 < len(fe) else ""
+                if nxt != "n:dfail":
+                    viol.append(("C10", "the exception %s raised while a queue was read is not reported (next event: %s)" % (e, nxt or "none")))
+        n_thr = sum(1 for e in fe if e.startswith(("wthrow:", "fthrow:")))
+        n_rep = sum(1 for e in fe if e in FAULT_NOTES)
+        if n_rep > n_thr:
+            viol.append(("C10", "operation '%s': %d sink calls threw but %d fault notifications were made" % (" ".join(w), n_thr, n_rep)))
     def f34_certain(st, i):
         # popping this statement certainly calls write_log of some sink (static configuration only)
         return st["lvl"] != 9 and st["op"] != "LB" and any(
@@ -869,6 +961,18 @@ def oracles(lines):
                 continue
             for s in st["sinks"]:
                 sk = rec["sinks"].get(s)
+                if has_pat and sk and accepts(sk, st, i):
+                    # w2_faults: a sink whose override pattern cannot be built costs the statements that REACH it, at itself and at the
+                    # sinks after it in that dispatch — never an earlier sink, never a statement its level/filter rejects
+                    b = pat_blocker(st, i, s)
+                    if b is None and written.get((s, i), 0) == 0:
+                        bad = [e for e in st["sinks"] if rec["sinks"].get(e, {}).get("pat") == "bad"]
+                        for pp in ("C10", "C16"):
+                            viol.append((pp, "accepted statement id=%d (level %d) never reached sink %d: the only failing sink of its logger (sink %s, override "
+                                         "pattern cannot be built) %s" % (i, st["lvl"], s, bad,
+                                         "comes after sink %d in the logger's list" % s if bad and st["sinks"].index(bad[0]) > st["sinks"].index(s)
+                                         else "rejects this statement by its level/filter, so its formatter is not needed for it")))
+                    continue
                 if sk and accepts(sk, st, i) and written.get((s, i), 0) == 0:
                     viol.append(("C08" if dropping else "C03", "accepted statement id=%d (actor %d) never reached sink %d" % (i, st["actor"], s)))
                     if st["actor"] in exited:
